@@ -14,6 +14,7 @@ mod c13;
 mod c14;
 mod c15;
 mod c16;
+mod c17;
 mod c19;
 
 use std::io::Write;
@@ -29,6 +30,7 @@ fn gen_all(id: &str, seed: u64, n: usize, thorough: bool) -> Vec<String> {
         "C15" => c15::gen_cases(seed, n, thorough),
         "C09" => c09::gen_cases(seed, n, thorough),
         "C12" => c12::gen_cases(seed, n, thorough),
+        "C17" => c17::gen_cases(seed, n, thorough),
         "C07" => c07::gen_cases(seed, n, thorough),
         "C14" => c14::gen_cases(seed, n, thorough),
         _ => panic!("unknown property {}", id),
@@ -46,6 +48,7 @@ fn run_line(id: &str, line: &str) -> String {
         "C15" => c15::run_line(line),
         "C09" => c09::run_line(line),
         "C12" => c12::run_line(line),
+        "C17" => c17::run_line(line),
         "C07" => c07::run_line(line),
         "C14" => c14::run_line(line),
         _ => "UNKNOWN-PROPERTY".to_string(),
